@@ -77,8 +77,8 @@ Print Assumptions C03_conditions_resolved_twice.
 
 (* THE MODEL-LEVEL FIXED POINT: m.resolve(p).resolve(p) == m.resolve(p).
    On the result of the first resolution: every resource is function-free and rendered (the hypotheses of C03_fixed_point).
-   On the template: every resource that was kept is [resource_wf] -- an object that is not a function object, with distinct keys,
-   whose Condition NAME is not rewritten by rendering (C03_model_fixed_point_needs_wf below shows why).
+   On the template: every resource that was kept is [resource_wf] -- an object that is not a function object, with distinct keys
+   (its Condition NAME and its Type are literals that resolution puts back: C03_model_condition_names_kept below).
    Nothing is assumed about the conditions, the resource ids, or the resources that were dropped. *)
 Theorem C03_model_fixed_point : forall pseudo decls extra maps cdecl rs ps cs rs',
   bind_params pseudo decls extra = Ok ps ->
@@ -113,15 +113,16 @@ Theorem C03_model_fixed_point_ex :
 Proof. exact model_fixed_point_ex. Qed.
 Print Assumptions C03_model_fixed_point_ex.
 
-(* [resource_wf] is needed, in the model and in the code: conditions named True (holds) and true (does not), a resource with
-   Condition: True.  The first resolution renders the attribute as "true"; the second one drops the resource. *)
-Theorem C03_model_fixed_point_needs_wf :
-  exists cs rs' out2,
-    resolve_model [] [] [] [] tt_cdecl tt_rs = Ok (model_out cs rs') /\
-    forallb (fun kv => no_fn_dict (snd kv) && rendered [] (snd kv)) rs' = true /\
-    resolve_model [] [] [] [] cs rs' = Ok out2 /\ out2 <> model_out cs rs' /\ out2 = model_out cs [].
-Proof. exact twice_needs_stable_condition_names. Qed.
-Print Assumptions C03_model_fixed_point_needs_wf.
+(* the NAME in a resource's Condition attribute is a literal, like its Type: conditions named True (holds) and true (does not),
+   a resource with Condition: True.  The resolved model still says True and resolving it again keeps the resource.  (The code as
+   found rendered the name to "true" and the second resolution dropped the resource: repaired, finding F27; the model of the
+   code as found and its refutation are in Findings/F27.v.) *)
+Theorem C03_model_condition_names_kept :
+  exists cs,
+    resolve_model [] [] [] [] tt_cdecl tt_rs = Ok (model_out cs tt_rs) /\
+    resolve_model [] [] [] [] cs tt_rs = Ok (model_out cs tt_rs).
+Proof. exact condition_names_are_kept. Qed.
+Print Assumptions C03_model_condition_names_kept.
 
 (* the fixed point is about the SAME assignment: resolved with E = prod and then with E = dev the model does not move, although
    the template resolves differently under E = dev -- a resolved model no longer follows its parameters *)
